@@ -18,8 +18,11 @@ Terms are nested tuples (hashable, structurally compared):
 Events (namedtuples) form the effect tree mirroring the control structure.
 """
 import ast
+import copy
 import os
 from collections import namedtuple
+
+from .desugar import desugar
 
 REPO = os.environ.get("IXAI_REPO", "/repo")
 PACKAGE = "ixai"
@@ -83,6 +86,38 @@ class ClassInfo:
             elif isinstance(n, ast.AnnAssign) and isinstance(n.target, ast.Name) and n.value is not None:
                 self.class_attrs[n.target.id] = n.value
 
+        # name = property(getter) / property(fget=getter): the getter is reachable under the public name
+        for n in node.body:
+            if isinstance(n, ast.Assign) and len(n.targets) == 1 and isinstance(n.targets[0], ast.Name) and \
+                    isinstance(n.value, ast.Call) and isinstance(n.value.func, ast.Name) and n.value.func.id == "property":
+                fget = n.value.args[0] if n.value.args else next((k.value for k in n.value.keywords if k.arg == "fget"), None)
+                if isinstance(fget, ast.Name) and fget.id in self.methods:
+                    alias = copy.copy(self.methods[fget.id])
+                    alias.name = n.targets[0].id
+                    alias.decorator_list = [ast.Name(id="property", ctx=ast.Load())]
+                    self.methods[alias.name] = alias
+                elif isinstance(fget, ast.Call) and not fget.keywords and len(fget.args) == 1 and \
+                        isinstance(fget.args[0], ast.Constant) and isinstance(fget.args[0].value, str) and \
+                        ast.unparse(fget.func) in ("attrgetter", "operator.attrgetter") and \
+                        all(part.isidentifier() for part in fget.args[0].value.split(".")):
+                    # property(attrgetter("a.b")) reads self.a.b
+                    getter = ast.parse(f"@property\ndef {n.targets[0].id}(self):\n    return self.{fget.args[0].value}\n").body[0]
+                    for sub in ast.walk(getter):
+                        if isinstance(sub, (ast.expr, ast.stmt)):
+                            ast.copy_location(sub, n)
+                    self.methods[getter.name] = getter
+        # immutable record classes (typing.NamedTuple, frozen dataclasses without methods of their own that
+        # matter to construction): constructing one is a tuple display with named components
+        self.record_fields = None
+        base_names = [ast.unparse(b) for b in node.bases]
+        frozen = any(isinstance(d, ast.Call) and ast.unparse(d.func) in ("dataclass", "dataclasses.dataclass") and
+                     any(k.arg == "frozen" and isinstance(k.value, ast.Constant) and k.value.value is True for k in d.keywords)
+                     for d in node.decorator_list)
+        if (any(b in ("NamedTuple", "typing.NamedTuple") for b in base_names) or frozen) and \
+                not ({"__init__", "__new__", "__post_init__", "__getattr__", "__getattribute__"} & set(self.methods)):
+            self.record_fields = [(n.target.id, n.value) for n in node.body
+                                  if isinstance(n, ast.AnnAssign) and isinstance(n.target, ast.Name)]
+
     def __repr__(self):
         return f"<class {self.qual}>"
 
@@ -116,7 +151,7 @@ class Program:
             is_pkg = modname.endswith(".__init__")
             if is_pkg:
                 modname = modname[: -len(".__init__")]
-            tree = ast.parse(text, filename=rel)
+            tree = desugar(ast.parse(text, filename=rel))
             self.modules[modname] = Module(modname, rel, tree, is_pkg, text)
         for m in self.modules.values():
             self._index(m)
@@ -124,6 +159,7 @@ class Program:
             for c in m.classes.values():
                 c.bases = [self.resolve_class(m, b) or self._base_name(m, b) for b in c.node.bases]
         self._summaries = {}
+        self.closures = {}          # site -> nested function definition + defining scope
 
     def _base_name(self, m, b):
         d = self.dotted_of(m, b)
@@ -337,8 +373,13 @@ PURE_EXT = {"numpy.exp": "exp", "numpy.log": "log", "numpy.floor": "floor", "num
             "math.isfinite": "isfinite", "numpy.full": "full", "numpy.zeros": "zeros", "numpy.ones": "ones",
             "numpy.empty": "empty", "numpy.float32": "float32", "numpy.float16": "float16",
             "numpy.square": "square", "math.fabs": "abs", "numpy.log1p": "log1p", "math.log1p": "log1p",
-            "numpy.ceil": "ceil", "math.ceil": "ceil", "numpy.isclose": "isclose", "math.isclose": "isclose",
+            "itertools.repeat": "repeat", "numpy.ceil": "ceil", "math.ceil": "ceil", "numpy.isclose": "isclose", "math.isclose": "isclose",
             "math.prod": "prod", "numpy.prod": "prod", "math.trunc": "trunc"}
+OPERATOR_EXT = {"operator.add": "+", "operator.sub": "-", "operator.mul": "*", "operator.truediv": "/",
+                "operator.pow": "**", "operator.mod": "%", "operator.floordiv": "//"}
+OPERATOR_CMP = {"operator.lt": "<", "operator.le": "<=", "operator.gt": ">", "operator.ge": ">=",
+                "operator.eq": "==", "operator.ne": "!=", "operator.is_": "is", "operator.is_not": "is not"}
+SET_ALGEBRA = {"difference": "-", "union": "|", "intersection": "&", "symmetric_difference": "^"}
 COPY_EXT = {"copy.deepcopy": "deepcopy", "copy.copy": "copy"}
 IDENTITY_EXT = {"tqdm.tqdm", "tqdm.auto.tqdm", "tqdm.notebook.tqdm"}
 MUTATORS = {"append", "extend", "insert", "pop", "popleft", "remove", "clear", "update", "add", "discard",
@@ -360,6 +401,10 @@ _MIRROR = {"==": "==", "!=": "!=", "<": ">", ">": "<", "<=": ">=", ">=": "<=", "
 def cmp_term(op, a, b):
     """Canonical comparison: a constant operand goes to the right; for symmetric operators the operands
     are ordered, so `1 <= x` is `x >= 1` and `a == b` is `b == a`."""
+    if op in ("is", "is not") and b == ("const", None):
+        isnone = _is_none(a)
+        if isnone is not None:
+            return isnone if op == "is" else negate_const(isnone)
     if op in _MIRROR:
         a_const = isinstance(a, tuple) and a and a[0] == "const"
         b_const = isinstance(b, tuple) and b and b[0] == "const"
@@ -368,6 +413,45 @@ def cmp_term(op, a, b):
         elif op in ("==", "!=", "is", "is not") and not a_const and not b_const and repr(b) < repr(a):
             a, b = b, a
     return ("cmp", op, a, b)
+
+
+_NEVER_NONE = ("tuple", "new", "comp", "flat", "op", "draw", "cmp", "fstr", "str")
+
+
+def _is_none(a):
+    """Condition under which the term is None, when that is decided by its shape (constants, fresh
+    objects, arithmetic results and selections between such); None if the shape does not decide it."""
+    if not (isinstance(a, tuple) and a):
+        return None
+    if a[0] == "const":
+        return ("const", a[1] is None)
+    if a[0] in _NEVER_NONE:
+        return ("const", False)
+    if a[0] == "gate":
+        x, y = _is_none(a[2]), _is_none(a[3])
+        if x is None or y is None:
+            return None
+        if x == y:
+            return x
+        if x == ("const", True) and y == ("const", False):
+            return a[1]
+        if x == ("const", False) and y == ("const", True):
+            return negate(a[1])
+        return gate(a[1], x, y)
+    return None
+
+
+def negate_const(c):
+    if isinstance(c, tuple) and c and c[0] == "const" and isinstance(c[1], bool):
+        return ("const", not c[1])
+    return negate(c)
+
+
+def const_truth(c):
+    """True/False for a condition that is a constant, else None."""
+    if isinstance(c, tuple) and len(c) == 2 and c[0] == "const" and (c[1] is None or isinstance(c[1], (bool, int, float, str))):
+        return bool(c[1])
+    return None
 
 
 def negate(c):
@@ -390,6 +474,8 @@ def gate(cond, a, b):
     if a == b:
         return a
     if isinstance(cond, tuple) and cond:
+        if cond[0] == "const" and len(cond) == 2 and isinstance(cond[1], bool):
+            return a if cond[1] else b
         if cond[0] == "not":
             return gate(cond[1], b, a)
         if cond[0] == "cmp" and cond[1] in _NEG_OPS:
@@ -405,6 +491,71 @@ def tget(v, i):
         if v[0] == "gate":
             return gate(v[1], tget(v[2], i), tget(v[3], i))
     return ("tget", v, i)
+
+
+def subst(t, mapping):
+    """Replace whole subterms according to `mapping` (term -> term)."""
+    if isinstance(t, tuple):
+        if t in mapping:
+            return mapping[t]
+        return tuple(subst(x, mapping) for x in t)
+    return t
+
+
+def norm_comp(c):
+    """One spelling for comprehensions that iterate `zip` displays:
+       for (a, b) in zip(A, repeat(k))              ->  for a in A          with b := k
+       for (a, b) in zip(A, (f(y) for y in B))      ->  for (a, y) in zip(A, B)   with b := f(y)
+       for (k, v) in zip(d.keys(), d.values())      ->  for (k, v) in d.items()
+    (the mapped generator must be condition-free; a dict is not modified between keys() and values())."""
+    for _ in range(8):
+        if not (isinstance(c, tuple) and c and c[0] == "comp"):
+            return c
+        kind, lid, it, key, val, conds = c[1:]
+        el = ("elem", lid)
+        if it[0] == "fn" and it[1] == "zip" and len(it[2]) == 2:
+            a, b = it[2]
+            if b[0] == "fn" and b[1] == "repeat" and len(b[2]) == 1:
+                m = {("tget", el, 0): el, ("tget", el, 1): b[2][0]}
+                if not _uses_whole(el, (key, val, conds), m):
+                    c = ("comp", kind, lid, a) + subst((key, val, conds), m)
+                    continue
+            if b[0] == "comp" and b[1] in ("gen", "list") and b[4] is None and not b[6] and b[5][0] != "flat":
+                inner = subst(b[5], {("elem", b[2]): ("tget", el, 1)})
+                m = {("tget", el, 1): inner}
+                if not _uses_whole(el, (key, val, conds), {("tget", el, 0): None, ("tget", el, 1): None}):
+                    c = ("comp", kind, lid, ("fn", "zip", (a, b[3]))) + subst((key, val, conds), m)
+                    continue
+            if a[0] == "res" and b[0] == "res" and a[2] == ".keys" and b[2] == ".values" and a[3] == b[3] and len(a[3]) == 1:
+                c = ("comp", kind, lid, ("res", a[1], ".items", a[3], ())) + (key, val, conds)
+                continue
+        return c
+    return c
+
+
+def _uses_whole(el, terms, parts):
+    """Is the loop element used other than through the listed projections?"""
+    def walk(t):
+        if isinstance(t, tuple):
+            if t in parts:
+                return False
+            if t == el:
+                return True
+            return any(walk(x) for x in t)
+        return False
+    return walk(terms)
+
+
+def attr_of(v, name):
+    """Attribute of a term, simplified through record displays (named tuples) and gates of them."""
+    if isinstance(v, tuple) and v:
+        if v[0] == "tuple" and len(v) == 3 and name in v[2][1:]:
+            return v[1][v[2][1:].index(name)]
+        if v[0] == "gate":
+            a, b = attr_of(v[2], name), attr_of(v[3], name)
+            if a[0] != "attr" or b[0] != "attr":
+                return gate(v[1], a, b)
+    return ("attr", v, name)
 
 
 def assume(term, facts):
@@ -578,7 +729,7 @@ class Summary:
 class Summariser:
     """Summarises one function (with same-class helpers inlined) into terms + an effect tree."""
 
-    MAX_DEPTH = 4
+    MAX_DEPTH = 6
 
     def __init__(self, prog, module, cls, fn, params=None, fields=None, depth=0, ids=None, stack=(),
                  loops=(), owner=None, fnstack=()):
@@ -668,6 +819,13 @@ class Summariser:
                 # does the test re-evaluate state here (calls / attribute or item reads), or only look at
                 # values computed earlier (plain names)?
                 fresh = any(isinstance(n, (ast.Call, ast.Attribute, ast.Subscript)) for n in ast.walk(st.test))
+                known = const_truth(cond)
+                if known is not None and not isinstance(st.test, ast.Constant):
+                    # the test is decided by the shape of its operands (e.g. `slot is not None` for an inlined
+                    # call that passes no slot): only the taken arm exists
+                    ev, term, ret = self.block(list(st.body if known else st.orelse) + list(rest))
+                    events.extend(ev)
+                    return events, term, ret
                 env0, f0 = dict(self.env), dict(self.fields)
                 if rest and _partial_exit(st):
                     # some (not all) paths of the arms leave the function: duplicate the continuation
@@ -800,7 +958,9 @@ class Summariser:
                     raise Unsupported(f"del {ast.unparse(t)} at {self.module.path}:{st.lineno}")
         elif isinstance(st, (ast.Import, ast.ImportFrom)):
             pass
-        elif isinstance(st, (ast.FunctionDef, ast.ClassDef)):
+        elif isinstance(st, ast.FunctionDef):
+            self.env[st.name] = self.closure(st)
+        elif isinstance(st, ast.ClassDef):
             self.env[st.name] = ("lambda", self.site(st))
         else:
             raise Unsupported(f"{type(st).__name__} at {self.module.path}:{st.lineno}")
@@ -857,8 +1017,15 @@ class Summariser:
     def loop(self, st, events):
         is_while = isinstance(st, ast.While)
         lid = self.ids.next()
+        elem_val = ("elem", lid)
         if not is_while:
             it = self.expr(st.iter, events)
+            # for x in (f(y) for y in ys): ...   is   for y in ys: x = f(y); ...   when f(y) has no effects
+            while isinstance(st.iter, (ast.GeneratorExp, ast.ListComp)) and \
+                    it[0] == "comp" and it[1] in ("gen", "list") and it[4] is None and not it[6] and it[5][0] != "flat" \
+                    and not any(isinstance(x, Loop) and x.lid == it[2] for x in events):
+                elem_val = subst(elem_val, {("elem", lid): subst(it[5], {("elem", it[2]): ("elem", lid)})})
+                it = it[3]
         names, fields = self.assigned_names(st.body)
         fields |= self.called_self_methods(st.body)
         env0, f0 = dict(self.env), dict(self.fields)
@@ -871,7 +1038,7 @@ class Summariser:
             # the loop condition is evaluated on the loop-carried state; iteration count unknown
             it = ("while", self.expr(st.test, events))
         else:
-            self.bind_target(st.target, ("elem", lid))
+            self.bind_target(st.target, elem_val)
         old_loops = self.loops
         self.loops = self.loops + (lid,)
         self.loop_marks.append((len(self.facts), []))
@@ -1028,7 +1195,7 @@ class Summariser:
                 if r[0] == "const" and isinstance(r[1][1], ast.Constant):
                     return ("const", r[1][1].value)
                 return ("global", d)
-            return ("attr", self._expr(e.value, events), e.attr)
+            return attr_of(self._expr(e.value, events), e.attr)
         if isinstance(e, ast.BinOp):
             return ("op", BINOPS[type(e.op)], self._expr(e.left, events), self._expr(e.right, events))
         if isinstance(e, ast.UnaryOp):
@@ -1099,7 +1266,12 @@ class Summariser:
         if isinstance(e, ast.Starred):
             return ("star", self._expr(e.value, events))
         if isinstance(e, ast.Lambda):
-            return ("lambda", self.site(e))
+            fn = ast.FunctionDef(name="<lambda>", args=e.args, body=[ast.Return(value=e.body)], decorator_list=[],
+                                 returns=None, type_comment=None, type_params=[])
+            ast.copy_location(fn, e)
+            ast.copy_location(fn.body[0], e)
+            fn.end_lineno = getattr(e, "end_lineno", e.lineno)
+            return self.closure(fn)
         raise Unsupported(f"expr {type(e).__name__} at {self.module.path}:{getattr(e, 'lineno', '?')}")
 
     def comp(self, e, events):
@@ -1132,7 +1304,7 @@ class Summariser:
             key, val = None, ("flat", inner)
         if ev:
             events.append(Loop(lid, it, ast.unparse(g.target), ev, {}, e.lineno, True))
-        return ("comp", kind, lid, it, key, val, conds)
+        return norm_comp(("comp", kind, lid, it, key, val, conds))
 
     # -- calls -----------------------------------------------------------------------------------
     def call(self, e, events):
@@ -1172,6 +1344,10 @@ class Summariser:
         if isinstance(f, ast.Attribute) and isinstance(f.value, ast.Attribute) and self.is_self(f.value.value) \
                 and not self._is_property(f.value.attr):
             recv = self.field(f.value.attr)
+            if f.attr in SET_ALGEBRA and len(args) == 1 and not kwargs:
+                return ("op", SET_ALGEBRA[f.attr], recv, args[0])
+            if f.attr == "__getitem__" and len(args) == 1 and not kwargs:
+                return ("sub", recv, args[0])
             res = ("res", self.site(e), f"self.{f.value.attr}.{f.attr}", args, kwargs)
             events.append(Call(f"self.{f.value.attr}", f.attr, recv, args, kwargs, res, line))
             if f.attr == "copy" and not args:
@@ -1200,12 +1376,12 @@ class Summariser:
                 events.append(Call(q, None, None, args, kwargs, res, line))
                 return res
             if r and r[0] == "class":
-                res = ("new", self.site(e), r[1].qual, args + tuple(("kw",) + kv for kv in kwargs))
-                events.append(Construct(r[1].qual, args, kwargs, res, line))
-                return res
+                return self._construct(r[1], args, kwargs, events, e)
             if r and r[0] == "ext":
                 d = r[1]
             elif r is None and f.id in FRESH_BUILTINS:
+                if f.id in ("list", "set") and len(args) == 1 and not kwargs and args[0][0] == "comp" and args[0][1] == "gen":
+                    return ("comp", f.id) + args[0][2:]        # list(<genexp>) is the list comprehension
                 return ("new", self.site(e), f.id, args + tuple(("kw",) + kv for kv in kwargs))
             elif r is None and f.id in PURE_BUILTINS:
                 if f.id == "len" and args == (("self",),) and self.cls is not None:
@@ -1221,33 +1397,6 @@ class Summariser:
                 return res
         if d is not None:
             return self._dotted_call(d, args, kwargs, events, e)
-        if False:
-            if d.startswith("random.") or d.startswith("numpy.random.") or d in ("random", "numpy.random"):
-                res = ("draw", self.site(e), d, args, kwargs, self.loops)
-                events.append(Draw(d, args, kwargs, res, line))
-                return res
-            if d in PURE_EXT:
-                return ("fn", PURE_EXT[d], args + tuple(("kw",) + kv for kv in kwargs))
-            if d in COPY_EXT:
-                return ("new", self.site(e), COPY_EXT[d], args)
-            if d in IDENTITY_EXT and args:
-                return args[0]
-            r = self.prog.resolve_dotted(d)
-            if r[0] == "class":
-                res = ("new", self.site(e), r[1].qual, args + tuple(("kw",) + kv for kv in kwargs))
-                events.append(Construct(r[1].qual, args, kwargs, res, line))
-                return res
-            if r[0] == "func":
-                m, node = r[1]
-                q = f"{m.name}.{node.name}"
-                if self._can_inline_function(m, node):
-                    return self.inline_function(m, node, q, args, dict(kwargs), events, e)
-                res = ("res", self.site(e), q, args, kwargs)
-                events.append(Call(q, None, None, args, kwargs, res, line))
-                return res
-            res = ("res", self.site(e), d, args, kwargs)
-            events.append(Call(d, None, None, args, kwargs, res, line))
-            return res
         # ClassName.method(...) on a package class: static / class-level helper
         if isinstance(f, ast.Attribute) and isinstance(f.value, ast.Name) and f.value.id not in self.env:
             rc = self.prog.resolve_name(self.module, f.value.id)
@@ -1269,6 +1418,10 @@ class Summariser:
         # method on a local object / arbitrary expression
         if isinstance(f, ast.Attribute):
             recv = self._expr(f.value, events)
+            if f.attr in SET_ALGEBRA and len(args) == 1 and not kwargs:
+                return ("op", SET_ALGEBRA[f.attr], recv, args[0])
+            if f.attr == "__getitem__" and len(args) == 1 and not kwargs:
+                return ("sub", recv, args[0])
             res = ("res", self.site(e), "." + f.attr, (recv,) + args, kwargs)
             if f.attr in MUTATORS:
                 events.append(Mut(recv, f.attr, args, kwargs, res, line))
@@ -1283,25 +1436,168 @@ class Summariser:
         events.append(Call("expr", None, recv, args, kwargs, res, line))
         return res
 
+    def _construct(self, cls, args, kwargs, events, e):
+        """Instantiation of a package class; an immutable record class is a tuple display with named fields."""
+        if cls.record_fields is not None and not any(isinstance(a, tuple) and a and a[0] == "star" for a in args) \
+                and not any(k is None for k, _ in kwargs):
+            names = [n for n, _ in cls.record_fields]
+            kw = dict(kwargs)
+            if len(args) <= len(names) and set(kw) <= set(names[len(args):]):
+                items = list(args)
+                ok = True
+                for n, default in cls.record_fields[len(args):]:
+                    if n in kw:
+                        items.append(kw[n])
+                    elif isinstance(default, ast.Constant):
+                        items.append(("const", default.value))
+                    else:
+                        ok = False
+                        break
+                if ok:
+                    return ("tuple", tuple(items), ("names",) + tuple(names))
+        res = ("new", self.site(e), cls.qual, args + tuple(("kw",) + kv for kv in kwargs))
+        events.append(Construct(cls.qual, args, kwargs, res, e.lineno))
+        return res
+
+    def closure(self, node):
+        """A nested function / lambda as a value.  It is inlined where it is called, with the variables of
+        the defining scope as they are at definition time; definitions whose captured variables may be
+        rebound afterwards (nonlocal, later assignments in the enclosing function) stay opaque."""
+        site = self.site(node)
+        opaque = ("lambda", site)
+        if node.decorator_list:
+            return opaque
+        own = {a.arg for a in node.args.posonlyargs + node.args.args + node.args.kwonlyargs}
+        if node.args.vararg:
+            own.add(node.args.vararg.arg)
+        if node.args.kwarg:
+            own.add(node.args.kwarg.arg)
+        loaded = set()
+        for n in ast.walk(node):
+            if isinstance(n, (ast.Nonlocal, ast.Global, ast.Yield, ast.YieldFrom, ast.Await)):
+                return opaque
+            if isinstance(n, ast.Name):
+                if isinstance(n.ctx, ast.Store):
+                    own.add(n.id)
+                else:
+                    loaded.add(n.id)
+        free = loaded - own
+        end = getattr(node, "end_lineno", node.lineno)
+        for n in ast.walk(self.fn):
+            if isinstance(n, ast.Name) and isinstance(n.ctx, (ast.Store, ast.Del)) and n.id in free and \
+                    n.lineno > end and not (node.lineno <= n.lineno <= end):
+                return opaque
+            if isinstance(n, (ast.FunctionDef, ast.ClassDef)) and n is not node and n.name in free and n.lineno > end:
+                return opaque
+        self.prog.closures[site] = (node, self.module, self.cls, self.owner, dict(self.env), self.self_name,
+                                    self.is_static, self.is_classmethod)
+        return ("closure", site)
+
+    def inline_closure(self, recv, args, kwargs, events, call_node):
+        node, module, cls, owner, env, self_name, is_static, is_classmethod = self.prog.closures[recv[1]]
+        if node in self.fnstack:
+            raise Unsupported(f"recursion at {self.module.path}:{call_node.lineno} {ast.unparse(call_node)[:60]}")
+        if self.depth >= self.MAX_DEPTH:
+            raise Unsupported(f"inlining bound reached at {self.module.path}:{call_node.lineno} {ast.unparse(call_node)[:60]}")
+        a = node.args
+        names = [x.arg for x in a.posonlyargs + a.args]
+        params = {}
+        pos = self._expand_star(args, len(names))
+        for n, v in zip(names, pos):
+            params[n] = v
+        if len(pos) > len(names) and a.vararg:
+            params["*"] = ("tuple", tuple(pos[len(names):]))
+        kwnames = set(names) | {x.arg for x in a.kwonlyargs}
+        for n, v in dict(kwargs).items():
+            if n in kwnames:
+                params[n] = v
+        for n, dflt in zip(names[len(names) - len(a.defaults):], a.defaults):
+            if n not in params:
+                params[n] = self._expr_const(dflt)
+        for kw, dflt in zip(a.kwonlyargs, a.kw_defaults):
+            if kw.arg not in params and dflt is not None:
+                params[kw.arg] = self._expr_const(dflt)
+        sub = Summariser(self.prog, module, None, node, params=params, fields=self.fields, depth=self.depth + 1,
+                         ids=self.ids, stack=self.stack + (f"{call_node.lineno}:{call_node.col_offset}",),
+                         loops=self.loops, owner=owner, fnstack=self.fnstack)
+        sub.cls, sub.self_name, sub.is_static, sub.is_classmethod = cls, self_name, is_static, is_classmethod
+        own_env = sub.env
+        sub.env = dict(env)
+        sub.env.update(own_env)
+        sub.facts = list(self.facts)
+        sub.base_facts = len(sub.facts)
+        ev, term, ret = sub.block(node.body)
+        self.fields = sub.exit_fields(term)
+        rv = ret if ret is not None else ("const", None)
+        events.append(Inlined(f"<closure {node.name}>", ev, call_node.lineno, None, node, dict(params), rv))
+        return rv
+
     def _call_value(self, recv, args, kwargs, events, e):
         """Call of a local that holds a library function / package class / package function, or a
         conditional choice between such (`cls = A if c else B; cls(...)`)."""
         if recv[0] == "global" and not recv[1].startswith(("?", "builtins.")):
             return self._dotted_call(recv[1], args, kwargs, events, e)
+        if recv[0] == "closure" and recv[1] in self.prog.closures:
+            return self.inline_closure(recv, args, kwargs, events, e)
+        if recv[0] == "partial":
+            fn, pargs, pkw = recv[1], recv[2], recv[3]
+            kw = tuple(kv for kv in pkw if kv[0] not in dict(kwargs)) + tuple(kwargs)
+            bound = self._bound_method_call(fn, pargs + args, dict(kw), events, e)
+            if bound is not None:
+                return bound
+            return self._call_value(fn, pargs + args, kw, events, e)
+        if recv[0] == "field0" and recv == self.fields.get(recv[1], recv):
+            # a callable held by the instance, reached through a local alias / partial application
+            res = ("res", self.site(e), f"self.{recv[1]}", args, kwargs)
+            events.append(Call(f"self.{recv[1]}", None, recv, args, kwargs, res, e.lineno))
+            return res
+        if recv[0] == "attr" and recv[2] == "__getitem__" and len(args) == 1 and not kwargs:
+            return ("sub", recv[1], args[0])
+        if recv[0] == "getter" and len(args) == 1 and not kwargs:
+            if recv[1] == "itemgetter":
+                return ("sub", args[0], ("const", recv[2]))
+            out = args[0]
+            for part in str(recv[2]).split("."):
+                out = attr_of(out, part)
+            return out
+        if recv[0] == "methodcaller" and len(args) == 1 and not kwargs:
+            margs, mkw = recv[2], recv[3]
+            res = ("res", self.site(e), "." + recv[1], (args[0],) + margs, mkw)
+            if recv[1] in MUTATORS:
+                events.append(Mut(args[0], recv[1], margs, mkw, res, e.lineno))
+            else:
+                events.append(Call("method", recv[1], args[0], margs, mkw, res, e.lineno))
+            return res
         if recv[0] == "gate":
-            ok = all(x[0] == "global" and not x[1].startswith(("?", "builtins.")) for x in (recv[2], recv[3]))
-            if not ok:
+            def callable_leaf(x):
+                return (x[0] == "global" and not x[1].startswith(("?", "builtins."))) or \
+                    x[0] in ("closure", "partial", "getter", "methodcaller") or \
+                    (x[0] == "gate" and callable_leaf(x[2]) and callable_leaf(x[3]))
+            if not (callable_leaf(recv[2]) and callable_leaf(recv[3])):
                 return None
+            cond = recv[1]
+            env0, f0 = dict(self.env), dict(self.fields)
             ev_t, ev_e = [], []
-            self.facts.append(recv[1])
-            a = self._dotted_call(recv[2][1], args, kwargs, ev_t, e)
+            self.facts.append(cond)
+            a = self._call_any(recv[2], args, kwargs, ev_t, e)
             self.facts.pop()
-            self.facts.append(negate(recv[1]))
-            b = self._dotted_call(recv[3][1], args, kwargs, ev_e, e)
+            f_t = self.fields
+            self.env, self.fields = dict(env0), dict(f0)
+            self.facts.append(negate(cond))
+            b = self._call_any(recv[3], args, kwargs, ev_e, e)
             self.facts.pop()
-            events.append(If(recv[1], ev_t, ev_e, e.lineno, False))
-            return gate(recv[1], a, b)
+            if a is None or b is None:
+                raise Unsupported(f"call of a conditional callable at {self.module.path}:{e.lineno}")
+            events.append(If(cond, ev_t, ev_e, e.lineno, False))
+            self.fields = self.merge(cond, f_t, self.fields, field=True)
+            return gate(cond, a, b)
         return None
+
+    def _call_any(self, recv, args, kwargs, events, e):
+        bound = self._bound_method_call(recv, args, dict(kwargs), events, e)
+        if bound is not None:
+            return bound
+        return self._call_value(recv, args, kwargs, events, e)
 
     def _dotted_call(self, d, args, kwargs, events, e):
         """Call of a resolved dotted name (external library, package class or package function)."""
@@ -1312,15 +1608,30 @@ class Summariser:
             return res
         if d in PURE_EXT:
             return ("fn", PURE_EXT[d], args + tuple(("kw",) + kv for kv in kwargs))
+        if d in OPERATOR_EXT and len(args) == 2 and not kwargs:
+            return ("op", OPERATOR_EXT[d], args[0], args[1])
+        if d in OPERATOR_CMP and len(args) == 2 and not kwargs:
+            return cmp_term(OPERATOR_CMP[d], args[0], args[1])
+        if d == "operator.getitem" and len(args) == 2 and not kwargs:
+            return ("sub", args[0], args[1])
+        if d == "operator.neg" and len(args) == 1 and not kwargs:
+            return ("op", "-", ("const", 0), args[0])
+        if d == "operator.not_" and len(args) == 1 and not kwargs:
+            return negate(args[0])
+        if d == "functools.partial" and args and not any(k == "**" for k, _ in kwargs) and \
+                not any(isinstance(a, tuple) and a and a[0] == "star" for a in args):
+            return ("partial", args[0], args[1:], kwargs)
+        if d in ("operator.attrgetter", "operator.itemgetter") and len(args) == 1 and not kwargs and args[0][0] == "const":
+            return ("getter", d.rsplit(".", 1)[1], args[0][1])
+        if d == "operator.methodcaller" and args and args[0][0] == "const" and isinstance(args[0][1], str):
+            return ("methodcaller", args[0][1], args[1:], kwargs)
         if d in COPY_EXT:
             return ("new", self.site(e), COPY_EXT[d], args)
         if d in IDENTITY_EXT and args:
             return args[0]
         r = self.prog.resolve_dotted(d)
         if r[0] == "class":
-            res = ("new", self.site(e), r[1].qual, args + tuple(("kw",) + kv for kv in kwargs))
-            events.append(Construct(r[1].qual, args, kwargs, res, line))
-            return res
+            return self._construct(r[1], args, kwargs, events, e)
         if r[0] == "func":
             m, node = r[1]
             q = f"{m.name}.{node.name}"
